@@ -1,5 +1,8 @@
 use shpverif::trace::{quiet_panics, Args};
 
+#[global_allocator]
+static GLOBAL: shpverif::alloc::Counting = shpverif::alloc::Counting;
+
 fn main() {
     let argv: Vec<String> = std::env::args().collect();
     if argv.len() < 2 {
@@ -21,6 +24,8 @@ fn main() {
         "types" => shpverif::cmd_types::run(&a),
         "rings" => shpverif::cmd_rings::run(&a),
         "complete" => shpverif::cmd_complete::run(&a),
+        "arbitrary" => shpverif::cmd_arbitrary::run(&a),
+        "arbitrary-child" => shpverif::cmd_arbitrary::child(&a),
         c => {
             eprintln!("unknown command {}", c);
             std::process::exit(2);
